@@ -56,12 +56,8 @@ fn can_pass_check(
 ) -> TokenResult {
     let actual_node = {
         match tc.rule().relation_strategy {
-            RelationStrategy::Associated => {
-                let node = stat::get_resource_node(&tc.rule().ref_resource).unwrap();
-                let node = node.as_any_arc();
-                let node = node.downcast_ref::<Arc<dyn StatNode>>().unwrap();
-                Some(node.clone())
-            }
+            RelationStrategy::Associated => stat::get_resource_node(&tc.rule().ref_resource)
+                .map(|node| node as Arc<dyn StatNode>),
             _ => given_node,
         }
     };
